@@ -658,6 +658,28 @@ fn corpus_replay(i: u64, st: &mut Stats) -> CaseResult {
     Ok(())
 }
 
+fn run_fuzz_totality(tier: Tier, seed: u64) -> SubReport {
+    use crate::fuzzdrv::*;
+    if tier == Tier::Quick {
+        return skipped("coverage-guided campaign runs in the thorough tier only (its saved corpus is replayed by corpus_replay)");
+    }
+    let c = Campaign {
+        target: "totality",
+        seed_corpus: Some("/verif/corpus/totality"),
+        runs_per_job: 400_000,
+        jobs: n_threads().min(8),
+        max_len: 2048,
+        dict: Some("/verif/corpus/exmex.dict"),
+    };
+    run_campaign(&c, seed, &|path: &std::path::Path| {
+        let text = String::from_utf8(std::fs::read(path).ok()?).ok()?;
+        match replay_nest(&json!({"text": text})) {
+            Ok(()) => None,
+            Err(fl) => Some((fl, json!({"text": text}))),
+        }
+    })
+}
+
 pub fn def() -> PropDef {
     PropDef {
         id: "C06",
@@ -688,6 +710,11 @@ pub fn def() -> PropDef {
                 name: "corpus_replay",
                 rule: "every file of /verif/corpus/totality and /verif/corpus/crashes (seeds from the repository's tests and documentation, inputs found by the fuzz campaigns) through the same oracle",
                 kind: Kind::Indexed { n: n_corpus, f: corpus_replay, exhaustive: false },
+            },
+            SubCheck {
+                name: "fuzz_totality",
+                rule: "thorough tier: libFuzzer campaign (8 jobs x 400k runs, dictionary of operator names, seeds from the repository's tests and docs on half of the jobs, empty corpus on the others, -len_control=0, no sanitizer because ASan inflates stack frames) on the target that calls every entry point; artifacts (crashes, timeouts) are re-checked in a child process with the plain oracle and an 8 MiB stack",
+                kind: Kind::Custom { run: run_fuzz_totality, replay: replay_nest },
             },
         ],
     }
